@@ -328,6 +328,7 @@ func (st *inlineState) tailBody(pk *packagesPkg, call *ast.CallExpr, h *FuncInfo
 	}
 	st.funcBody(pk, body, append(append([]*types.Func{}, stack...), h.Obj))
 	st.notes = append(st.notes, "new helper "+h.Name()+" in return position at "+st.p.Pos(call.Pos())+" read in place")
+	st.p.noteInlinedCall(call)
 	return append(pre, body.List...)
 }
 
@@ -911,6 +912,7 @@ func (st *inlineState) instantiate(pk *packagesPkg, call *ast.CallExpr, h *FuncI
 		if ret, isRet := body.List[len(body.List)-1].(*ast.ReturnStmt); isRet && (len(ret.Results) == len(resObjs)) {
 			pre = append(pre, body.List[:len(body.List)-1]...)
 			st.notes = append(st.notes, "new helper "+h.Name()+" inlined at "+st.p.Pos(call.Pos()))
+	st.p.noteInlinedCall(call)
 			return pre, ret.Results, true
 		}
 	}
@@ -989,6 +991,7 @@ func (st *inlineState) instantiate(pk *packagesPkg, call *ast.CallExpr, h *FuncI
 	}
 	pre = append(pre, moved...)
 	st.notes = append(st.notes, "new helper "+h.Name()+" inlined at "+st.p.Pos(call.Pos()))
+	st.p.noteInlinedCall(call)
 	if direct {
 		return pre, nil, true
 	}
@@ -1088,6 +1091,7 @@ func (st *inlineState) asLiteralCall(pk *packagesPkg, call *ast.CallExpr, h *Fun
 	lit := &ast.FuncLit{Type: &ast.FuncType{Func: pos, Params: &ast.FieldList{}}, Body: body}
 	st.funcBody(pk, body, append(append([]*types.Func{}, stack...), h.Obj))
 	st.notes = append(st.notes, "new helper "+h.Name()+" started with go/defer at "+st.p.Pos(call.Pos())+" read as a function literal")
+	st.p.noteInlinedCall(call)
 	return &ast.CallExpr{Fun: lit, Lparen: pos, Rparen: pos}
 }
 
@@ -1743,5 +1747,17 @@ func (st *inlineState) registerLocalClosures(pk *packagesPkg, body *ast.BlockStm
 		st.isNew[fn] = fi
 		st.tailOnly[fn] = false
 		st.localLit[c.obj] = fn
+	}
+}
+
+// noteInlinedCall records where a call of a new helper stood before it was replaced by the helper's body (the compiler
+// reports the bounds checks of a function it inlined at the call's position – bounds.go reads these as echoes).
+func (p *Prog) noteInlinedCall(call *ast.CallExpr) {
+	if p.inlinedAt == nil {
+		p.inlinedAt = map[string]bool{}
+	}
+	ps, pe := p.Fset.Position(call.Pos()), p.Fset.Position(call.End())
+	for l := ps.Line; l <= pe.Line; l++ {
+		p.inlinedAt[ps.Filename+":"+itoa(l)] = true
 	}
 }
